@@ -120,6 +120,24 @@ def rule_sticky(ctx):
     ix = ctx.ix
     b = ctx.body(C.LIMITS_EXCEEDED)
     sym = ctx.sym(b)
+    # fields of Search written while the tree is walked (by the search functions and everything they call)
+    from . import effects
+    eff = effects.Effects(ix)
+    mutable = set()
+    for k in (C.ALPHA_BETA_START, C.ALPHA_BETA, C.QUIESCENCE):
+        for (path, how) in eff.writes(k):
+            if path:
+                mutable.add(path[0])
+    _CTX.update(b=b, sym=sym, ix=ix, mutable=mutable)
+    ctx.check({"board", "info"} <= mutable, "search-mutable-fields", "the tree walk modifies Search.{%s}: tests on them are not constant during a search" % ",".join(sorted(mutable)), b.where(0),
+              bad_what="cannot establish which fields of Search the tree walk modifies (found %s)" % sorted(mutable))
+    # the other abort predicate: is_running() is the shared flag itself, so that `false` stays `false` (the flag is only
+    # ever cleared during a search: C10.flag-writers)
+    ir = ctx.body(C.IS_RUNNING)
+    r = ctx.sym(ir).local(0)
+    pure = r[0] == "call" and r[1] == C.ATOMIC_LOAD and any(isinstance(x, tuple) and x[0] == "field" and x[-1] == "running" for x in walk(r)) and len(ir.blocks) <= 3
+    ctx.check(pure, "is_running:is-the-flag", "is_running() is exactly self.running.load(..): once false it stays false for the rest of the search", ir.where(0),
+              bad_what="is_running() returns `%s`: it can answer `true` again after having answered `false`, so a parent re-asking after an aborted child may accept the dummy value" % expr_str(r)[:100])
     # which blocks clear the flag
     clear_blocks = set()
     for bi, t in b.calls():
@@ -169,9 +187,41 @@ def rule_sticky(ctx):
     ctx.floor("true-returning paths of limits_exceeded", n, 3)
 
 
+_CTX = {}
+
+
+def expand_vars(c, depth=0):
+    """Replace each variable leaf by what defines it: a variable assigned in the arms of a test (`let own = match
+    self.board.current_turn { .. }`) is as (in)constant as that test and those values.  Returns a list of expressions whose
+    leaves together are everything the condition depends on."""
+    b, sym, ix = _CTX.get("b"), _CTX.get("sym"), _CTX.get("ix")
+    out = [c]
+    if b is None or depth > 4:
+        return out
+    seen = set()
+    for x in walk(c):
+        if isinstance(x, tuple) and x[0] == "var" and x[1] not in seen:
+            seen.add(x[1])
+            ls = [l for l in range(len(b.locals)) if b.local_name(l) == x[1]]
+            for l in ls:
+                for (db, di, rv) in b.defs().get(l, []):
+                    if rv.get("k") == "partial":
+                        rv = rv["rv"]
+                    v = sym.rvalue(rv) if rv.get("k") != "call" else ("call", strip_generics(mir.callee_name(rv["t"])), tuple(sym.operand(a) for a in rv["t"]["args"]))
+                    out.extend(expand_vars(v, depth + 1))
+                    for cc in C.constraints_for(ix, b, sym, db):
+                        out.extend(expand_vars(cc[3], depth + 1))
+    return out
+
+
 def cond_kind(c):
     """One positively-required condition of a true-returning path: 'const' (cannot change during a search),
     'clock>=limit' / 'nodes>=limit' (monotone), 'ply==MAX', 'ply-vs-depth-limit', or 'other'."""
+    deps = expand_vars(c)
+    dep_fields = {f for d in deps for x in walk(d) if isinstance(x, tuple) and x[0] == "field" for f in x[2:]}
+    # fields of Search that the tree walk itself modifies: a test on them can flip between a child and its parent
+    if dep_fields & _CTX.get("mutable", set()) - {"info"}:
+        return "other"
     leaves = list(walk(c))
     fields = {x[2:] for x in leaves if isinstance(x, tuple) and x[0] == "field"}
     flat = {f for fs in fields for f in fs}
